@@ -21,7 +21,7 @@ func init() {
 			"with two or more Primary candidates, or no Primary and several default-named candidates, any surviving candidate is accepted (the statement only fixes unique winners)",
 			"populations of more than three providers are not covered (thorough: four for family (a) without the optional field)",
 		},
-		Parts: []Part{{Name: "ranking", Run: func(c *core.Ctx) { resolveRun(c, "C08") }, QuickS: 90, ThoroughS: 1200}},
+		Parts: []Part{{Name: "ranking", Run: func(c *core.Ctx) { resolveRun(c, "C08") }, QuickS: 180, ThoroughS: 1500}},
 	})
 }
 
@@ -57,7 +57,7 @@ func qPops(max int) [][]scen.QProv {
 	var attrs []scen.QProv
 	for _, prim := range []bool{false, true} {
 		for _, named := range []bool{false, true} {
-			for _, q := range []string{"-", "", "g1", "g2"} {
+			for _, q := range []string{"-", "", "g1", "g2", "G1"} { // "G1": differs from g1 in case only
 				attrs = append(attrs, scen.QProv{Prim: prim, Named: named, Q: q})
 			}
 		}
